@@ -201,6 +201,13 @@ class LoopCtx:
     def pre_local(self, name):
         return self.pre.env[name]
 
+    def outer_local(self, name):
+        """Local of the consumer frame when the loop belongs to a fused generator."""
+        return self.st.stack[-1][name]
+
+    def pre_outer_local(self, name):
+        return self.pre.stack[-1][name]
+
     def f(self, ref, name):
         return self.st.obj(ref).fields[name]
 
@@ -270,7 +277,20 @@ class LoopCtx:
                 self.length = n
                 self.item_fn = lambda i, s, arr=arr, k=k: Opaque(z3.Select(arr, i if is_sym(i) else z3.IntVal(i)), kind=k)
             elif h.kind == 'list' and spec.iterate_concrete_list_symbolically:
-                raise NotImplementedError
+                items = list(h.items)
+                if not all(isinstance(x, str) for x in items):
+                    from .engine import EngineError
+                    raise EngineError('symbolic iteration over a concrete list of non-strings')
+                self.length = len(items)
+                self.ghost['items'] = items
+
+                def item(i, s, items=items):
+                    i = i if is_sym(i) else z3.IntVal(i)
+                    v = z3.StringVal(items[-1])
+                    for j in range(len(items) - 2, -1, -1):
+                        v = z3.If(i == j, z3.StringVal(items[j]), v)
+                    return v
+                self.item_fn = item
             else:
                 from .engine import EngineError
                 raise EngineError(f'for loop with invariant over {h.kind}')
@@ -323,13 +343,15 @@ class LoopCtx:
 
 
 class LoopSpec:
-    def __init__(self, invariant, modifies_locals=None, local_types=None, havoc_heap=None, variant=None):
+    def __init__(self, invariant, modifies_locals=None, local_types=None, havoc_heap=None, variant=None, outer_local_types=None, iteration_checks=None, symbolic_iteration=False):
         self.invariant = invariant
         self.modifies_locals = modifies_locals
         self.local_types = local_types or {}
         self._havoc_heap = havoc_heap
         self.variant = variant
-        self.iterate_concrete_list_symbolically = False
+        self.iterate_concrete_list_symbolically = symbolic_iteration
+        self.iteration_checks = iteration_checks   # fn(ctx_before, ctx_after, events_of_iteration) -> dict name -> Bool
+        self.outer_local_types = outer_local_types or {}   # consumer-frame locals (fused generator loops)
 
     def havoc_heap(self, ctx):
         if self._havoc_heap:
@@ -340,7 +362,7 @@ class Contract:
     def __init__(self, target, props=(), params=None, self_type=None, requires=None, ensures=None,
                  raises=None, modifies=None, returns=None, effects=None, loops=None, inline=False,
                  raise_when=None, setup=None, twins=None, replay=None, top=False, note='',
-                 checks=None, inline_callees=(), typed=False,
+                 checks=None, inline_callees=(), typed=False, param_alternatives=None, gen_loops=None,
                  old_at='entry', kwargs_type=None, monitor=False, events=True, raise_effects=None,
                  reach=True):
         self.target = target
@@ -351,6 +373,8 @@ class Contract:
         self.ensures = ensures or (lambda c: {})   # checked at the root, assumed at call sites
         self.inline_callees = tuple(inline_callees)
         self.typed = typed
+        self.param_alternatives = param_alternatives
+        self.gen_loops = gen_loops or {}
         self.checks = checks or (lambda c: {})     # checked at the root only (trace / top-level)
         self.raises = raises or {}        # exc class name -> fn(c) -> dict name->Bool (checked)
         self.raise_when = raise_when or {}  # exc class name -> fn(c) -> Bool assumed at call sites
@@ -400,6 +424,7 @@ class Registry:
         self.inline = set()
         self.lemmas = []
         self.lock_levels = {}
+        self.global_overrides = {}   # (module, name) -> value for module constants built by unmodelled library calls
 
     def contract(self, target, **kw):
         c = Contract(target, **kw)
@@ -422,7 +447,12 @@ class Registry:
     def mark_inline(self, *targets):
         self.inline.update(targets)
 
-    def loop_spec(self, finfo, node):
+    def loop_spec(self, finfo, node, root=None):
+        if root is not None and root.gen_loops:
+            loops = [n for n in ast.walk(finfo.node) if isinstance(n, (ast.For, ast.While))]
+            loops.sort(key=lambda n: (n.lineno, n.col_offset))
+            if node in loops and (finfo.qualname, loops.index(node)) in root.gen_loops:
+                return root.gen_loops[(finfo.qualname, loops.index(node))]
         c = self.contracts.get(finfo.qualname)
         if c is None or not c.loops:
             return None
